@@ -21,7 +21,7 @@ import (
 
 //verif:include ../dnsdata/rdb/zz_verif_model.go
 //verif:include ../db/zz_verif_world.go
-//verif:harness H14_hb property=C14 native=no quick=layout=2,sched=0,watch=0,cache=0,pre=0;layout=0,sched=0,watch=0,cache=1,pre=0;layout=1,sched=0,watch=1,cache=1,pre=0;layout=2,sched=1,watch=0,cache=0,pre=1;layout=2,sched=1,watch=0,cache=0,pre=2;layout=1,sched=1,watch=0,cache=0,pre=3 thorough=layout=1,sched=1,watch=0,cache=0,pre=2;layout=2,sched=1,watch=0,cache=0,pre=3;layout=2,sched=0,watch=1,cache=1,pre=0;layout=0,sched=0,watch=1,cache=0,pre=0;layout=2,sched=1,watch=0,cache=0,pre=0;layout=0,sched=2,watch=0,cache=1,pre=1
+//verif:harness H14_hb property=C14 native=no quick=layout=2,sched=0,watch=0,cache=0,pre=0;layout=0,sched=0,watch=0,cache=1,pre=0;layout=1,sched=0,watch=1,cache=1,pre=0;layout=2,sched=1,watch=0,cache=0,pre=1;layout=2,sched=1,watch=0,cache=0,pre=2;layout=1,sched=1,watch=0,cache=0,pre=3;layout=0,sched=1,watch=0,cache=1,pre=4 thorough=layout=1,sched=1,watch=0,cache=0,pre=2;layout=2,sched=1,watch=0,cache=0,pre=3;layout=2,sched=0,watch=1,cache=1,pre=0;layout=0,sched=0,watch=1,cache=0,pre=0;layout=2,sched=1,watch=0,cache=0,pre=0;layout=0,sched=2,watch=0,cache=1,pre=1
 
 func H14_hb() {
 	verifLayout = nd.Param("layout")
@@ -32,6 +32,9 @@ func H14_hb() {
 	cache := CacheConfig{}
 	if nd.Param("cache") == 1 {
 		cache = CacheConfig{Enabled: true, LRUSize: 4}
+	}
+	if nd.Param("pre") == 4 {
+		cache.WRSTimeout = 5 // weighted answers are cached too (for five seconds)
 	}
 	env := verifNewHandler(first, cache)
 	env.h.dbConfig.ReloadTimeout = 24 * 3600e9
@@ -96,6 +99,21 @@ func H14_hb() {
 			}
 			done <- struct{}{}
 		}}
+	}
+	if nd.Param("pre") == 4 {
+		// two queries with an OPT record for a name whose answer is a weighted selection, the
+		// response cache keeping such answers: one may fill the entry the other one reads
+		wq := func(id uint16) {
+			q := new(dns.Msg)
+			q.Id = id
+			q.Question = []dns.Question{{Name: "w.z.", Qtype: dns.TypeA, Qclass: dns.ClassINET}}
+			q.Extra = append(q.Extra, &dns.OPT{Hdr: dns.RR_Header{Name: ".", Rrtype: dns.TypeOPT, Class: 1232}})
+			w := &verifWriter{remote: verifClientIPs[2]}
+			_, _ = env.h.ServeDNSWithRCODE(context.Background(), w, q)
+			done <- struct{}{}
+		}
+		verifYieldAtStats = true
+		tasks = []func(){func() { wq(1) }, func() { wq(2) }}
 	}
 	if nd.Param("pre") == 1 {
 		// pre-emption shape: the three queries only, pre-empted between any two handler steps
